@@ -13,7 +13,24 @@ SPEC = os.path.join(VERIF, "spec")
 WORK = os.path.join(VERIF, "work")
 TLA_CP = "/opt/veriftools/tla/tla2tools.jar:/opt/veriftools/tla/CommunityModules-deps.jar"
 
-VERDICT_RE = re.compile(r'^<<"(VERDICT|KNOWN|STEP)", (\d+), (.*)>>$')
+VERDICT_RE = re.compile(r'^<<\s*"(VERDICT|KNOWN|STEP)",\s*(\d+),\s*(.*)>>$')
+
+
+def tlc_tuples(out):
+    """TLC wraps printed values at 80 columns: re-join tuples that span several lines."""
+    buf = None
+    for ln in out.splitlines():
+        t = ln.strip()
+        if buf is None:
+            if t.startswith("<<"):
+                buf = t
+            else:
+                continue
+        else:
+            buf += " " + t
+        if buf.endswith(">>"):
+            yield buf
+            buf = None
 
 
 class ToolError(Exception):
@@ -64,7 +81,7 @@ def prepare_dir(name):
     return d
 
 
-def run_tlc(workdir, module, cfg, env_extra=None, workers=1, xmx="3g", timeout=1800, extra=None):
+def run_tlc(workdir, module, cfg, env_extra=None, workers=1, xmx="3g", timeout=900, extra=None):
     env = dict(os.environ)
     env["JAVA_TOOL_OPTIONS"] = "-Xss1g"
     env.update(env_extra or {})
@@ -87,7 +104,7 @@ def _parse_tuple_tail(s):
     return re.findall(r'"((?:[^"\\]|\\.)*)"', s)
 
 
-def validate_chunk(workdir, idx, records, focus="ALL", timeout=1800):
+def validate_chunk(workdir, idx, records, focus="ALL", timeout=900):
     """Validate one chunk (a list of records starting with a cfg record).  Returns
     (verdicts, knowns, steps, stats, raw_output)."""
     path = os.path.join(workdir, "trace_%d.ndjson" % idx)
@@ -97,8 +114,8 @@ def validate_chunk(workdir, idx, records, focus="ALL", timeout=1800):
     rc, out = run_tlc(workdir, "Trace.tla", "Trace.cfg",
                       {"TRACE": path, "FOCUS": focus, "KNOWN": os.path.join(workdir, "known.json")}, timeout=timeout)
     verdicts, knowns, steps = [], [], {}
-    for ln in out.splitlines():
-        m = VERDICT_RE.match(ln.strip())
+    for ln in tlc_tuples(out):
+        m = VERDICT_RE.match(ln)
         if not m:
             continue
         kind, i, tail = m.group(1), int(m.group(2)), _parse_tuple_tail(m.group(3))
@@ -123,7 +140,7 @@ def validate_chunk(workdir, idx, records, focus="ALL", timeout=1800):
     return sorted(set(verdicts)), sorted(set(knowns)), steps, stats, out
 
 
-def validate(name, sessions, focus="ALL", jobs=12, chunk_events=1500, timeout=1800):
+def validate(name, sessions, focus="ALL", jobs=12, chunk_events=1500, timeout=900):
     """sessions: list of lists of records; each session starts with a cfg record (and is
     independent of the others: the driver was reset before it).  Returns a dict with
     verdicts [(session, index_in_session, prop, tag, outcome)], knowns, per-outcome counts."""
